@@ -7,9 +7,9 @@ Import ListNotations.
 Open Scope string_scope.
 
 Definition spec_operators : list (string * string) :=
-  [("Add", "operator.add"); ("Sub", "operator.sub"); ("Mult", "operator.mul");
+  [("Add", "_bounded_add"); ("Sub", "operator.sub"); ("Mult", "_bounded_mul");
    ("Div", "operator.truediv"); ("FloorDiv", "operator.floordiv"); ("Mod", "operator.mod");
-   ("Pow", "operator.pow"); ("USub", "operator.neg"); ("UAdd", "operator.pos")].
+   ("Pow", "_bounded_pow"); ("USub", "operator.neg"); ("UAdd", "operator.pos")].
 
 Definition spec_comparisons : list (string * string) :=
   [("Eq", "operator.eq"); ("NotEq", "operator.ne"); ("Lt", "operator.lt");
@@ -25,7 +25,7 @@ Definition spec_functions : list (string * string) :=
    ("sinh", "math.sinh"); ("cosh", "math.cosh"); ("tanh", "math.tanh");
    ("log", "math.log"); ("log10", "math.log10"); ("log2", "math.log2"); ("exp", "math.exp");
    ("pow", "math.pow"); ("ceil", "math.ceil"); ("floor", "math.floor"); ("trunc", "math.trunc");
-   ("factorial", "math.factorial"); ("gcd", "math.gcd"); ("degrees", "math.degrees");
+   ("factorial", "_bounded_factorial"); ("gcd", "math.gcd"); ("degrees", "math.degrees");
    ("radians", "math.radians");
    ("pi", "math.pi"); ("e", "math.e"); ("tau", "math.tau"); ("inf", "math.inf")].
 
